@@ -40,6 +40,12 @@ CHECKS = {
  "C20": ("exploration", "accept/reject matrix: faithful copies must pass, copies with exactly one verified single-fact mutation must make compare() raise, both argument orders",
          "generated named netlists x 24 mutation kinds (each verified to change exactly the canonical form) x both orders; positive side: API rebuild, the netlist itself, clone (fenced while the clone/namespace finding is open).",
          "any exception counts as raise; copies built by API rebuild", "4 C20"),
+ "C03": ("exploration", "write->read differential with canonical form + independent s-expression observer of the written file",
+         "generated EDIF-expressible netlists under both policies and bundled .edf examples: canon_edif before compose == canon_edif after re-parse; the file as read by an independent s-expression reader equals the inventory the netlist dictates; a second round trip is a fixpoint.",
+         "port base index and library/cell order not compared (not promised)", "4 C03"),
+ "C17": ("exploration", "legality/uniqueness predicate (independent EDIF identifier grammar) over identifiers stored after compose + reparse + direct make_valid calls",
+         "adversarial sibling name sets in every scope: every identifier legal, unique ignoring case (also against sibling names), rename recorded, written file accepted and re-read names equal the originals.",
+         "printable-ASCII names without quotes/newlines; two open findings fence long and '&_'-prefixed multi-bit net names", "4 C17"),
 }
 NA = {}
 fixes = subprocess.run(["git", "-C", "/repo", "log", "--format=%h %s"], capture_output=True, text=True).stdout.splitlines()
